@@ -26,20 +26,30 @@
 #include "Time.cc"
 using namespace phosg;
 
-#define W_TIMED_OUT (-30)
-// out_status: the wait status cached in the object after communicate (or -1)
+// st[0]: the wait status cached in the object after communicate (or -1); st[1], st[2]: stdin_write_fd / stdout_read_fd members
+// afterwards. The Subprocess is destroyed before the wrapper returns (its destructor reaps a child that is still running).
 WEXPORT int64_t w_communicate(int stdin_fd, int stdout_fd, int pid, const uint8_t* in, size_t in_n, uint64_t timeout_usecs,
-    uint8_t* out, size_t cap, int64_t* out_status) {
-  *out_status = -1;
-  try {
+    uint8_t* out, size_t cap, int64_t* st) {
+  int64_t r;
+  {
     Subprocess sp;
     sp.stdin_write_fd = stdin_fd;
     sp.stdout_read_fd = stdout_fd;
     sp.child_pid = pid;
     sp.terminated = false;
-    std::string r = sp.communicate(in, in_n, timeout_usecs);
-    *out_status = sp.exit_status;
-    return w_copy_out(r, out, cap);
+    try {
+      std::string s = sp.communicate(in, in_n, timeout_usecs);
+      r = w_copy_out(s, out, cap);
+    } catch (const std::runtime_error&) {
+      r = W_RUNTIME_ERROR;
+    } catch (const std::exception&) {
+      r = W_STD_EXCEPTION;
+    } catch (...) {
+      r = W_UNKNOWN_EXCEPTION;
+    }
+    st[0] = sp.exit_status;
+    st[1] = sp.stdin_write_fd;
+    st[2] = sp.stdout_read_fd;
   }
-  W_CATCH_ALL
+  return r;
 }
